@@ -53,6 +53,9 @@ func vCoreTables() []vTable {
 func vCurlyOnly(tbl int) bool { return tbl == 2 || tbl == 3 || tbl == 6 || tbl == 18 || tbl == 22 || tbl == 28 }
 
 func vTableFor(tbl int) vTable {
+	if tbl >= 5000 {
+		return vGenMediaTable(tbl - 5000)
+	}
 	if tbl >= 1000 {
 		return vGenTable(tbl - 1000)
 	}
